@@ -71,6 +71,7 @@ def run(data):
                 rec["res"] = canon(l ** c["r"])
             elif op == "level":        # quantity -> level in the logarithmic unit of c["r"]
                 q = mk(c["l"]); lu = mk_lunit(c["r"])
+                rec["lc"] = canon(q)
                 lv = lu.level(q)
                 rec["res"] = canon(lv)
                 rec["power_ratio"] = lu.power_ratio
